@@ -325,6 +325,19 @@ def processPartition (normalMax : Int) (nQueried : Nat) (single : Bool) (c : Con
           else (.ok (if single then c else { c with retry := c.retry ++ [tp] }), false)
         else (.ok c, false)
 
+/-- the book-keeping loop of `process_fetch_responses` over all partitions of all responses, in response order;
+    the flag says whether any partition delivered messages -/
+def processAll (normalMax : Int) (nQueried : Nat) (single : Bool) :
+    List (Bytes × FetchPartition) → Consumer → Bool → Outcome Consumer × Bool
+  | [], c, ne => (.ok c, ne)
+  | (t, p) :: r, c, ne =>
+    match topicRef c.assignments t with
+    | none => (.panic "consumer/mod.rs:298 expect unknown topic in response", ne)
+    | some tr =>
+      match processPartition normalMax nQueried single c tr p with
+      | (.ok c', got) => processAll normalMax nQueried single r c' (ne || got)
+      | (o, _) => (o, ne)
+
 /-- `process_fetch_responses` -/
 def processResponses (nQueried : Nat) (resps : List FetchResponse) : CoM σ PollResult := fun w =>
   let c := w.cons
@@ -334,18 +347,9 @@ def processResponses (nQueried : Nat) (resps : List FetchResponse) : CoM σ Poll
   | some code => (w, .err (.kafka code))
   | none =>
     let parts := resps.flatMap fun r => r.topics.flatMap fun t => t.partitions.map fun p => (t.topic, p)
-    let rec go : List (Bytes × FetchPartition) → Consumer → Bool → Outcome Consumer × Bool
-      | [], c, ne => (.ok c, ne)
-      | (t, p) :: r, c, ne =>
-        match topicRef c.assignments t with
-        | none => (.panic "consumer/mod.rs:298 expect unknown topic in response", ne)
-        | some tr =>
-          match processPartition normalMax nQueried single c tr p with
-          | (.ok c', got) => go r c' (ne || got)
-          | (o, _) => (o, ne)
-    match go parts c false with
+    match processAll normalMax nQueried single parts c false with
     | (.ok c', ne) => ({ w with cons := c' }, .ok ⟨resps, !ne⟩)
-    | (.err e, _) => (w, .err e)       -- (state changes before an error are modelled below, see `pollStateOnError`)
+    | (.err e, _) => (w, .err e)
     | (.panic s, _) => (w, .panic s)
     | (.diverge, _) => (w, .diverge)
 
